@@ -2,7 +2,7 @@
 # try_seed.sh <patch.diff> <Cxx> [<Cyy>...] : apply a seeded change to /repo, run the quick checks, revert. Prints verdict lines.
 p=$1; shift
 git -C /repo status --short | grep -q . && { echo "/repo not clean"; exit 2; }
-git -C /repo apply "$p" || { echo "patch does not apply"; exit 2; }
+git -C /repo apply "$p" 2>/dev/null || git -C /repo apply -C1 "$p" || { echo "patch does not apply"; exit 2; }
 for c in "$@"; do
   /verif/check $c --tier quick > /tmp/try_$c.out 2>&1; rc=$?
   echo "== $c exit=$rc  violations: $(grep -c '^VIOLATION' /tmp/try_$c.out)"
